@@ -169,7 +169,12 @@ class ORToolsSolver(BaseSolver):
             )
 
         sorted_schedule = [
-            sorted(scheduled_operation, key=lambda x: x.start_time)
+            # Zero-duration operations can share their start time with the
+            # operation that follows them, so ties are broken by end time.
+            sorted(
+                scheduled_operation,
+                key=lambda x: (x.start_time, x.end_time),
+            )
             for scheduled_operation in unsorted_schedule
         ]
 
